@@ -51,6 +51,9 @@ Base == [
   \* useq: enumeration values used as initial values (variables, structure elements, defaults) are written with
   \* their type prefix (lev : LEVEL := LEVEL#LOW) - the same value either way
   useq |-> FALSE,
+  \* useqalias: ... the initial values of variables and structure elements with the prefix of an ALIAS of their
+  \* enumeration (lev : LEVEL := LEVEL2#LOW) - still the same value
+  useqalias |-> FALSE,
   types |-> <<
     \* qual: the positions of the value list that are written with the type prefix (LEVEL#LOW) - the same value either way
     [n |-> "LEVEL", k |-> "enum", vals |-> <<"LOW", "MID", "HIGH">>, def |-> "LOW", qual |-> {}],
@@ -275,17 +278,21 @@ GrowPou == (\A p \in Range(unit.pous) : p.n # "EXTRA") /\ Edit(<<"grow:pou">>, [
                                    body |-> <<A(NoWrap, "q", <<"int", "1">>), C(NoWrap, "ci", <<<<"in1", "q">>>>, <<>>, <<>>)>>])])
 
 (* --- planting: the documented "Fails" shape of one rule at one site --- *)
-PlantDupStructElem == Edit(<<"plant:StructElemUnique", "PT">>, [unit EXCEPT !.types[3].elems = Append(@, [n |-> "x", ty |-> "BOOL", init |-> NoInit])])
+\* the name of the first element once more - or twice more (n = 2): the later ones are each a duplicate of the FIRST
+PlantDupStructElem == \E n \in {1, 2} :
+                        Edit(<<"plant:StructElemUnique", "PT", n>>,
+                             [unit EXCEPT !.types[3].elems = @ \o [i \in 1..n |-> [n |-> "x", ty |-> "BOOL", init |-> NoInit]]])
 PlantBadSubrange == \E b \in {<<10, 1>>, <<5, 5>>} : Edit(<<"plant:SubrangeOrdered", "RNG", b[1], b[2]>>, [unit EXCEPT !.types[4].lo = b[1], !.types[4].hi = b[2]])
 \* a value listed twice - both spelled alike, or one of them with the type prefix
-PlantDupEnumValue == \E v \in {"LOW", "HIGH"}, q \in {"plain", "second-qualified", "first-qualified"} :
+PlantDupEnumValue == \E v \in {"LOW", "HIGH"}, q \in {"plain", "second-qualified", "first-qualified", "twice"} :
                        LET n == Len(unit.types[1].vals) + 1
                            first == CHOOSE i \in 1..(n - 1) : unit.types[1].vals[i] = v
                        IN  Edit(<<"plant:EnumValuesUnique", "LEVEL", v, q>>,
-                                [unit EXCEPT !.types[1].vals = Append(@, v),
+                                [unit EXCEPT !.types[1].vals = IF q = "twice" THEN @ \o <<v, v>> ELSE Append(@, v),
                                              !.types[1].qual = @ \cup (IF q = "second-qualified" THEN {n} ELSE IF q = "first-qualified" THEN {first} ELSE {})])
 GrowQualifyEnumValue == unit.types[1].qual = {} /\ Edit(<<"grow:qualify">>, [unit EXCEPT !.types[1].qual = {2}])
 GrowQualifyUses == ~unit.useq /\ Edit(<<"grow:qualifyuse">>, [unit EXCEPT !.useq = TRUE])
+GrowQualifyUsesAlias == ~unit.useq /\ ~unit.useqalias /\ Edit(<<"grow:qualifyusealias">>, [unit EXCEPT !.useqalias = TRUE])
 \* an undeclared name in every role of every statement of every POU.  The name is one that exists nowhere ("zz"),
 \* or - scoping - one that IS declared, but not in this POU: a variable of the previous / next POU of the unit,
 \* or a global this POU has no VAR_EXTERNAL declaration for.
@@ -293,8 +300,12 @@ OtherNames(i, k) == IF k \in PouIdx(unit) /\ k # i
                     THEN {v.n : v \in {w \in VarsOf(unit.pous[k]) : w.ty \in {"INT", "BOOL"}}} \ (VarNames(unit.pous[i]) \cup {unit.pous[i].n})
                     ELSE {}
 PickOne(S) == IF S = {} THEN {} ELSE {CHOOSE x \in S : TRUE}
+\* ... or the NAME of the previous / next POU itself: a function block, function or program is not a variable of its
+\* neighbours (only a function may use its own name, as its result)
+PouNames(i) == {unit.pous[k].n : k \in {i - 1, i + 1} \cap PouIdx(unit)} \ (VarNames(unit.pous[i]) \cup {unit.pous[i].n})
 ForeignNames(i) == PickOne(OtherNames(i, i - 1)) \cup PickOne(OtherNames(i, i + 1))
                    \cup PickOne({g.n : g \in Globals(unit)} \ (VarNames(unit.pous[i]) \cup {unit.pous[i].n}))
+                   \cup PouNames(i)
 PlantUndeclaredVar ==
   \E i \in PouIdx(unit), j \in 1..4, role \in {"tgt", "src", "wrap", "arg", "out", "pos"} :
    \E zz \in {"zz"} \cup ForeignNames(i) :
@@ -374,13 +385,13 @@ PlantExternNotConst ==
   \/ \E i \in {1, 2} : Edit(<<"plant:ExternOfConstIsConst", unit.pous[i].n, "new">>, AddVarTo(unit, i, V("gk", "VAR_EXTERNAL", "-", "INT", NoInit)))
 
 Grow == (("grow" \in EditKinds) /\ (GrowVar \/ GrowConst \/ GrowStmt \/ GrowWrap \/ GrowEnumValue \/ GrowStructElem \/ GrowType \/ GrowTask
-                                     \/ GrowPositionalCall \/ GrowEmptyCall \/ GrowInOut \/ GrowGlobal \/ GrowPou \/ GrowConfig2 \/ GrowStdNamedType \/ GrowQualifyEnumValue \/ GrowQualifyUses))
+                                     \/ GrowPositionalCall \/ GrowEmptyCall \/ GrowInOut \/ GrowGlobal \/ GrowPou \/ GrowConfig2 \/ GrowStdNamedType \/ GrowQualifyEnumValue \/ GrowQualifyUses \/ GrowQualifyUsesAlias))
 Plant == (("plant" \in EditKinds) /\ (PlantDupStructElem \/ PlantBadSubrange \/ PlantDupEnumValue \/ PlantUndeclaredVar \/ PlantBadEnumInit
                                        \/ PlantBadEnumStmt \/ PlantUnknownType \/ PlantStdlib \/ PlantUnknownInstance \/ PlantMix
                                        \/ PlantUnknownInput \/ PlantArity \/ PlantUnknownOutput \/ PlantUndefinedTask \/ PlantConstNoInit
                                        \/ PlantConstFB \/ PlantExternNotConst))
 
-IsGrow(e) == e[1] \in {"grow:qualify", "grow:qualifyuse", "grow:config2", "grow:stdnamedtype", "grow:inout", "grow:var", "grow:const", "grow:stmt", "grow:wrap", "grow:enumvalue", "grow:structelem", "grow:type", "grow:task",
+IsGrow(e) == e[1] \in {"grow:qualify", "grow:qualifyuse", "grow:qualifyusealias", "grow:config2", "grow:stdnamedtype", "grow:inout", "grow:var", "grow:const", "grow:stmt", "grow:wrap", "grow:enumvalue", "grow:structelem", "grow:type", "grow:task",
                        "grow:positionalcall", "grow:emptycall", "grow:global", "grow:pou"}
 
 Init == unit = Base /\ edits = <<>>
@@ -415,7 +426,7 @@ LabelTargets(e) ==
     [] e[1] = "plant:SubrangeOrdered"       -> {ToString(e[3]), ToString(e[4]), "RNG"}
     [] e[1] = "plant:EnumValuesUnique"      -> {e[3], "LEVEL", "LEVEL#" \o e[3]}
     [] e[1] = "plant:VarDeclared"           -> {e[5]}
-    [] e[1] = "plant:EnumValueDeclared"     -> {"NOPE", "LEVEL#NOPE"}
+    [] e[1] = "plant:EnumValueDeclared"     -> {"NOPE", "LEVEL#NOPE", "LEVEL2#NOPE"}
     [] e[1] = "plant:StmtEnumValueDeclared" -> {"NOPE"}
     [] e[1] = "plant:TypeDeclared"          -> {"MISSING"}
     [] e[1] = "plant:StdlibSupported"       -> {e[3]}
